@@ -112,17 +112,17 @@ theorem order_ids_are_indices (cfg : Config) (cl : List Client) (ss : List Strat
   (inv_reachable cfg cl ss us).range
 
 
-open Flumine.Fin in
-/-- C15 "the live list always contains every order that is not complete", whole-run: in every state
-    reachable by any history of a market, an order of its blotter that is not complete is in the live list
-    (equivalently: an order has left the live list only if it is EXECUTION_COMPLETE) -/
+open Flumine.Fin Flumine.Inv in
+/-- C15 "the live list always contains every order that is not complete", whole-run: in every state reachable
+    by any history (any markets, any interleaving, any scripts), an order of a blotter that is not complete is in
+    that market's live list (equivalently: an order has left the live list only if it is EXECUTION_COMPLETE) -/
 theorem live_list_holds_incomplete_whole_run (cfg : Config) (cl : List Client) (ss : List Strategy) (M : Nat)
-    (us : List (Book × (Nat → List Action))) :
-    ∀ oid ∈ ((runMarket M { cfg := cfg, clients := cl, strategies := ss } us).market! M).blotter,
-      ((runMarket M { cfg := cfg, clients := cl, strategies := ss } us).order! oid).complete = false →
-      oid ∈ ((runMarket M { cfg := cfg, clients := cl, strategies := ss } us).market! M).live := by
+    (us : List (Nat × Book × (Nat → List Action))) :
+    ∀ oid ∈ ((runUpdates { cfg := cfg, clients := cl, strategies := ss } us).market! M).blotter,
+      ((runUpdates { cfg := cfg, clients := cl, strategies := ss } us).order! oid).complete = false →
+      oid ∈ ((runUpdates { cfg := cfg, clients := cl, strategies := ss } us).market! M).live := by
   intro oid hb hc
-  have b := ((fs_runMarket M _ us).2 (bi_empty M cfg cl ss)).1
+  have b := ((fs_runUpdates M _ us).2 (bi_empty M cfg cl ss)).1
   by_contra hn
   have := ec_complete b oid hb (b.live oid hb hn)
   rw [hc] at this; cases this
